@@ -60,6 +60,20 @@ impl<T> HqIndex<usize> for [T] {
     fn hq_index(&self, i: usize) -> (r: &T) { unimplemented!() }
 }
 
+// N14 (diverge mode) for Vec places: `v[i] = x`, `v[i].push(x)`: the element is fetched mutably or the access diverges
+trait HqIndexMutVec<T> {
+    spec fn hq_seq(&self) -> Seq<T>;
+    fn hq_index_mut(&mut self, i: usize) -> (r: &mut T)
+        ensures
+            (i as int) < old(self).hq_seq().len(), *r == old(self).hq_seq()[i as int],
+            final(self).hq_seq() == old(self).hq_seq().update(i as int, *final(r));
+}
+impl<T> HqIndexMutVec<T> for Vec<T> {
+    spec fn hq_seq(&self) -> Seq<T> { self@ }
+    #[verifier::external_body]
+    fn hq_index_mut(&mut self, i: usize) -> (r: &mut T) { unimplemented!() }
+}
+
 // "x occurs among the first n elements of s"
 spec fn seq_has<T>(s: Seq<T>, n: int, x: T) -> bool { exists|i: int| 0 <= i < n && #[trigger] s[i] == x }
 
